@@ -13,12 +13,15 @@ import (
 type RefType struct {
 	Scope Scope
 	Name  string
+	// resolving is set while the referenced type is visited: it
+	// detects types which reference themself.
+	resolving bool
 }
 
 // NewRefType is a contructor for the representation of a type reference to be
 // resolved with a TypeSet.
 func NewRefType(name string, scope Scope) signature.Type {
-	return &RefType{scope, name}
+	return &RefType{Scope: scope, Name: name}
 }
 
 // Signature returns the signature of the referenced type. If the
@@ -26,7 +29,12 @@ func NewRefType(name string, scope Scope) signature.Type {
 // with a name describing the error.
 func (r *RefType) Signature() string {
 	t, err := r.Scope.Search(r.Name)
+	if err == nil && r.resolving {
+		err = fmt.Errorf("recursive type: %s", r.Name)
+	}
 	if err == nil {
+		r.resolving = true
+		defer func() { r.resolving = false }()
 		return t.Signature()
 	}
 	return signature.NewStructType(err.Error(), nil).Signature()
@@ -114,7 +122,9 @@ func (r *RefType) Reader() signature.TypeReader {
 
 func (r *RefType) Type() reflect.Type {
 	t, err := r.Scope.Search(r.Name)
-	if err == nil {
+	if err == nil && !r.resolving {
+		r.resolving = true
+		defer func() { r.resolving = false }()
 		return t.Type()
 	}
 	return reflect.TypeOf((*error)(nil))
